@@ -50,6 +50,7 @@ func part3Jobs(run *vk.Run, race bool) []func() {
 	for _, tr := range []string{"websocket", "polling"} {
 		tr := tr
 		jobs = append(jobs, func() { ackMismatch(run, tr) })
+		jobs = append(jobs, func() { connectTimeoutAfterRejection(run, tr) })
 	}
 	for _, useMW := range []bool{false, true} {
 		for _, auth := range []string{"none", "bogus-pid", "bogus-pid-offset", "empty-pid-offset"} {
@@ -121,6 +122,7 @@ func concurrentChain(run *vk.Run, transport string, nmw, n int) {
 		for k := 0; k < n; k++ {
 			name := fmt.Sprintf("ev%d", k)
 			s.OnEvent(name, func(k int, pay string) { record("handler", name, []any{k, pay}) })
+			s.OnEvent(name, func(k int, pay string) { record("handler2", name, []any{k, pay}) }) // the verdict of the chain holds for every handler
 		}
 		s.OnEvent("fence", func(ack func()) { ack() })
 	})
@@ -161,6 +163,7 @@ func concurrentChain(run *vk.Run, transport string, nmw, n int) {
 	}
 	// (1) name and arguments belong together, everywhere
 	entered := map[string]map[int]int64{} // where -> k -> seq of first entry
+	calls := map[string]int{}             // repeated entries per (where, k)
 	overlaps := 0
 	for _, r := range recs {
 		if r.k < 0 || r.name != fmt.Sprintf("ev%d", r.k) || r.pay != fmt.Sprintf("payload-%d", r.k) {
@@ -171,7 +174,12 @@ func concurrentChain(run *vk.Run, transport string, nmw, n int) {
 			entered[r.where] = map[int]int64{}
 		}
 		if _, dup := entered[r.where][r.k]; dup {
-			bad("event-middleware-called-twice", fmt.Sprintf("%s ran twice for event %d", r.where, r.k))
+			// two handlers are registered per event name and the library runs the middleware chain once per
+			// handler: a middleware may see an event twice, a handler only once
+			calls[r.where+fmt.Sprint(r.k)]++
+			if strings.HasPrefix(r.where, "handler") || calls[r.where+fmt.Sprint(r.k)] > 1 {
+				bad("event-middleware-called-twice", fmt.Sprintf("%s ran %d times for event %d (two handlers registered)", r.where, calls[r.where+fmt.Sprint(r.k)]+1, r.k))
+			}
 			continue
 		}
 		entered[r.where][r.k] = r.seq
@@ -192,6 +200,11 @@ func concurrentChain(run *vk.Run, transport string, nmw, n int) {
 		}
 		if ran && rejected(k) {
 			bad("handler-after-rejection", fmt.Sprintf("event %d was rejected by middleware %d but its handler ran", k, rejectAt))
+		}
+		if _, ran2 := entered["handler2"][k]; ran2 && rejected(k) {
+			bad("handler-after-rejection", fmt.Sprintf("event %d was rejected by middleware %d but the SECOND handler registered for its event name ran", k, rejectAt))
+		} else if !ran2 && ran && !rejected(k) && complete {
+			bad("event-lost-in-chain", fmt.Sprintf("event %d reached the first handler of its event name but not the second", k))
 		}
 		if !ran && !rejected(k) && complete {
 			bad("event-lost-in-chain", fmt.Sprintf("event %d was accepted by every middleware but its handler never ran", k))
@@ -323,6 +336,70 @@ func ackMismatch(run *vk.Run, transport string) {
 		}
 	}
 	run.Distinct("3c/" + transport)
+}
+
+// connectTimeoutAfterRejection — part 3d: "nothing of the socket remains on the server". A connection whose only
+// CONNECT was rejected has joined no namespace; the server's connect timeout (here 1 s) must reap it exactly as
+// it reaps a connection that never sent a CONNECT. Control: a connection with an accepted namespace is kept.
+func connectTimeoutAfterRejection(run *vk.Run, transport string) {
+	run.Eval(1)
+	cfg := &sio.ServerConfig{ConnectTimeout: time.Second}
+	srv, err := rig.NewServer(cfg, "")
+	if err != nil {
+		run.Inconclusive("part3d: " + err.Error())
+		return
+	}
+	defer srv.Close()
+	srv.IO.Of("/").Use(func(s sio.ServerSocket, h *sio.Handshake) any {
+		var a struct {
+			OK bool `json:"ok"`
+		}
+		json.Unmarshal(h.Auth, &a)
+		if !a.OK {
+			return fmt.Errorf("not allowed")
+		}
+		return nil
+	})
+	srv.IO.Of("/").OnConnection(func(s sio.ServerSocket) {})
+	dial := func() *rawpeer.SIO {
+		p, err := rawpeer.DialSIO(srv.URL, transport)
+		if err != nil {
+			run.Inconclusive("part3d: dial: " + err.Error())
+			return nil
+		}
+		return p
+	}
+	silent, rejectedPeer, accepted := dial(), dial(), dial()
+	if silent == nil || rejectedPeer == nil || accepted == nil {
+		return
+	}
+	defer silent.C.Abort()
+	defer rejectedPeer.C.Abort()
+	defer accepted.C.Abort()
+	if res, err := rejectedPeer.Connect("/", nil, 20*time.Second); err != nil || res.OK {
+		run.Inconclusive("part3d: the CONNECT was not rejected")
+		return
+	}
+	if res, err := accepted.Connect("/", map[string]any{"ok": true}, 20*time.Second); err != nil || !res.OK {
+		run.Inconclusive("part3d: the control CONNECT was not accepted")
+		return
+	}
+	// positive control first: the connection that never sent a CONNECT is reaped by the timeout
+	if !silent.C.WaitClosed(15 * time.Second) {
+		run.Inconclusive("part3d " + transport + ": the connect timeout (1 s) did not even close a connection that never sent CONNECT")
+		return
+	}
+	fields := map[string]any{"part": "3d", "transport": transport}
+	if !rejectedPeer.C.WaitClosed(10 * time.Second) {
+		run.Violation(vk.Violation{Sub: "rejected-connection-kept", Fields: fields,
+			What:    "ConnectTimeout 1 s: a connection that never sent CONNECT was closed by the timeout, but a connection whose only CONNECT was rejected by a middleware is still open 10 s later: the server still counts the rejected socket's namespace as joined [" + transport + "]",
+			Witness: map[string]any{"transport": transport}})
+	}
+	if accepted.C.IsClosed() {
+		run.Violation(vk.Violation{Sub: "accepted-connection-closed", Fields: fields,
+			What: "ConnectTimeout 1 s: the connection with an ACCEPTED namespace was closed as well [" + transport + "]", Witness: map[string]any{"transport": transport}})
+	}
+	run.Distinct("3d/" + transport)
 }
 
 func asInt(v any) (int, bool) {
